@@ -13,7 +13,7 @@ Directives (lines whose first non-blank characters are `//@`):
   //@assoc  <leading tokens>          copy an associated item (e.g. `type Error`) up to `;`
   //@fn <name> [ret=<ident>] [props=C01,C02] [file=<file>] [nth=<k>] [external_body]
   //@| <text>                         spec text, placed between signature and body (or at loop / hint anchor)
-  //@edit[opts] OLD ~~> NEW           replace token sequence OLD inside the body (opts: n=<count>, wrap, sig)
+  //@edit[opts] OLD ~~> NEW           replace token sequence OLD inside the body (opts: n=<count>, wrap, sig, first = only the first remaining occurrence)
   //@loop <k>                         following //@| lines are attached to the k-th loop (1-based)
   //@before[k] TOKENS / //@after[k] TOKENS   following //@| lines are ghost text inserted there
   //@endfn                            (optional) ends the fn directive group
@@ -277,12 +277,12 @@ class Expander:
             pieces = self._replace_in_pieces(pieces, old, new, count=None, label="rewrite")
         return pieces
 
-    def _replace_in_pieces(self, pieces, old, new, count, label, wrap=False):
+    def _replace_in_pieces(self, pieces, old, new, count, label, wrap=False, first=False):
         """find token sequence `old` inside orig pieces; replace by `new`. count=None: any number"""
         total = 0
         out = []
         for p in pieces:
-            if p.kind != "orig":
+            if p.kind != "orig" or (first and total >= 1):
                 out.append(p); continue
             toks = rtok.lex(p.text)
             ntx = []
@@ -298,6 +298,8 @@ class Expander:
                     k += len(old)
                 else:
                     k += 1
+            if first:
+                hits = hits[:1]   # `first`: only the first remaining occurrence (earlier edits have consumed theirs)
             if not hits:
                 out.append(p); continue
             total += len(hits)
@@ -583,7 +585,7 @@ class Expander:
                 pieces = self._replace_in_pieces(pieces, norm(lex_frag(old)), new, cnt, "fn %s edit" % name)
             else:
                 body_pieces = self._replace_in_pieces(body_pieces, norm(lex_frag(old)), new, cnt,
-                                                      "fn %s edit" % name, wrap=("wrap" in eopts))
+                                                      "fn %s edit" % name, wrap=("wrap" in eopts), first=("first" in eopts))
             self.log.append("fn %s: edit `%s` -> `%s`%s" % (name, old, new.replace("\n", " "), " (closure body braced)" if "wrap" in eopts else ""))
         pieces.extend(body_pieces)
         pieces = self.apply_rewrites(pieces)
